@@ -75,6 +75,7 @@ type Contract struct {
 	Uses     []LemmaUse
 	WritesVia []WritesVia
 	NoAlloc  bool      // the function allocates nothing (checked on the callee, used at call sites: allocation counter unchanged)
+	AllocProps []string // properties that own the allocation-size obligations (every make sized by a non-constant is bounded by 65536*memcap); empty = not generated
 	Safety   []string  // properties that own this function's safety side-conditions (nopanic/overflow/pre@); empty = all props
 	Functional string  // name of the ufunc this function's single result equals (deterministic function of its arguments)
 	NoClose  []string  // channel variables that neither this function nor any of its function literals may close
@@ -415,6 +416,8 @@ func ParseContracts(P *Program) (*Contracts, error) {
 				cur.NoAlloc = true
 			case "safety":
 				cur.Safety = strings.Fields(rest)
+			case "allocbound":
+				cur.AllocProps = strings.Fields(rest)
 			case "functional":
 				cur.Functional = strings.TrimSpace(rest)
 			case "noclose":
